@@ -291,12 +291,64 @@ class NB:
                 b[ax] = d(st.integers(0, shape[ax] - 1))
                 e[ax] = d(st.integers(b[ax] + 1, shape[ax]))
         so = [ee - bb for bb, ee in zip(b, e)]
+        if len(shape) >= 2 and d(st.integers(0, 2)) == 0:
+            return self.sslice_masked(x, b, e)
         o = self.out("sslice", so, X["dtype"], (X["scale"], X["zp"]))
         if d(st.booleans()):
             ins = [x, self.const_i32("begin", b), self.const_i32("end", e), self.const_i32("strides", [1] * len(shape))]
             self.op("STRIDED_SLICE", ins, [o], "StridedSliceOptions", dict(BeginMask=0, EndMask=0, EllipsisMask=0, NewAxisMask=0, ShrinkAxisMask=0), version=2)
         else:
             self.op("SLICE", [x, self.const_i32("begin", b), self.const_i32("size", so)], [o], "SliceOptions", {}, version=2)
+        return o
+
+    def sslice_masked(self, x, b, e):
+        """STRIDED_SLICE (strides 1) spelling the range [b, e) of every axis in one of the ways the operator allows: begin/end masks, negative indices, an end beyond the
+        dimension (clamped by the reference), shrink_axis_mask on axes of extent 1, or one new axis (new_axis_mask)"""
+        d, st = self.draw, self.st
+        X = self.info(x)
+        shape = X["shape"]
+        r = len(shape)
+        bm = em = sam = nam = 0
+        bb, ee = list(b), list(e)
+        mode = d(st.sampled_from(["masks", "masks", "shrink", "newaxis"]))
+        for ax in range(r):
+            form = d(st.sampled_from(["plain", "mask", "negative", "beyond"]))
+            if form == "mask":
+                if b[ax] == 0 and d(st.booleans()):
+                    bm |= 1 << ax
+                    bb[ax] = d(st.sampled_from([0, 1, -1, 5]))  # ignored
+                if e[ax] == shape[ax]:
+                    em |= 1 << ax
+                    ee[ax] = d(st.sampled_from([0, 1, -1, shape[ax]]))  # ignored
+            elif form == "negative":
+                if b[ax] > 0 and d(st.booleans()):
+                    bb[ax] = b[ax] - shape[ax]
+                if e[ax] < shape[ax]:
+                    ee[ax] = e[ax] - shape[ax]
+            elif form == "beyond" and e[ax] == shape[ax]:
+                ee[ax] = shape[ax] + d(st.sampled_from([1, 7, 1000]))
+        so = [y - z for z, y in zip(b, e)]
+        if mode == "shrink":
+            cands = [ax for ax in range(r) if not (bm >> ax) & 1]
+            for ax in cands:
+                if d(st.booleans()) and r - bin(sam).count("1") > 1:
+                    # the axis is reduced to the element at begin: end is ignored
+                    sam |= 1 << ax
+                    em &= ~(1 << ax)
+                    ee[ax] = d(st.sampled_from([bb[ax] + 1, 0, shape[ax]]))
+            so = [v if not (sam >> ax) & 1 else None for ax, v in enumerate([(1 if (sam >> ax) & 1 else so[ax]) for ax in range(r)])]
+            so = [v for v in so if v is not None]
+        elif mode == "newaxis" and r <= 3:
+            pos = d(st.integers(0, r))
+            ins = lambda lst, v: lst[:pos] + [v] + lst[pos:]
+            shift = lambda m: (m & ((1 << pos) - 1)) | ((m >> pos) << (pos + 1))
+            bb, ee = ins(bb, 0), ins(ee, d(st.sampled_from([0, 1])))
+            bm, em = shift(bm), shift(em)
+            nam = 1 << pos
+            so = ins(so, 1)
+        o = self.out("sslice", so, X["dtype"], (X["scale"], X["zp"]))
+        ins_ = [x, self.const_i32("begin", bb), self.const_i32("end", ee), self.const_i32("strides", [1] * len(bb))]
+        self.op("STRIDED_SLICE", ins_, [o], "StridedSliceOptions", dict(BeginMask=bm, EndMask=em, EllipsisMask=0, NewAxisMask=nam, ShrinkAxisMask=sam), version=2)
         return o
 
     def split(self, x):
